@@ -155,11 +155,12 @@ def surface_ders_exact(pu, pv, Uu, Uv, su, sv, P, u, v, order, rational):
     return [[[x * fk[k] * fk[l] for x in cs[k][l]] for l in range(order + 1)] for k in range(order + 1)]
 
 
-def vclose(got, exp, tol=1e-9):
-    """componentwise |got - exp| <= tol * max(1, max |exp|) (error relative to the size of the vector)"""
+def vclose(got, exp, tol=1e-9, scale=None):
+    """componentwise |got - exp| <= tol * max(1, max |exp|, scale) (error relative to the size of the vector; for derivative vectors
+    scale = the largest component of the lower-order vectors: a high derivative that is exactly zero is computed from them)"""
     if len(got) != len(exp):
         return False
-    s = max([F(1)] + [abs(F(x)) for x in exp])
+    s = max([F(1)] + [abs(F(x)) for x in exp] + ([F(scale)] if scale is not None else []))
     return all(abs(F(g) - F(e)) <= F(tol) * s for g, e in zip(got, exp))
 
 
@@ -320,7 +321,7 @@ class CurveDers(Family):
         return call(lambda: lists(mk_curve(c, c["alg2"]).derivatives(c["u"], c["order"])))
 
     def coq(self, c, out):
-        return "(res_cmp closeVV (Curve_derivatives Qops %s %s %s) %s)" % (curve_args(c), G.Q(c["u"]), G.n(c["order"]), G.res(out, G.sll))
+        return "(res_cmp closeVVr (Curve_derivatives Qops %s %s %s) %s)" % (curve_args(c), G.Q(c["u"]), G.n(c["order"]), G.res(out, G.sll))
 
     def coq_show(self, c, out):
         return "(Curve_derivatives Qops %s %s %s)" % (curve_args(c), G.Q(c["u"]), G.n(c["order"]))
@@ -335,8 +336,10 @@ class CurveDers(Family):
         exp = curve_ders_exact(c["p"], c["U"], c["P"], c["u"], c["order"], c["rational"])
         if len(got) != c["order"] + 1:
             return "curve-shape: %d vectors for order %d" % (len(got), c["order"])
+        run = F(1)
         for k in range(c["order"] + 1):
-            if not vclose(got[k], exp[k]):
+            run = max([run] + [abs(F(x)) for x in exp[k]])
+            if not vclose(got[k], exp[k], scale=run):
                 return "curve-derivative: %s derivative %d at u=%r = %s, exact %s (degree %d, %s, %s)" % (
                     "rational" if c["rational"] else "non-rational", k, c["u"], got[k], [float(x) for x in exp[k]], c["p"],
                     "A3.4" if c["alg2"] else "A3.2", c["cls"])
@@ -384,7 +387,7 @@ class SurfaceDers(Family):
         return call(lambda: lists(mk_surface(c, c["alg2"]).derivatives(c["u"], c["v"], c["order"])))
 
     def coq(self, c, out):
-        return "(res_cmp closeVVV (Surface_derivatives Qops %s %s %s %s) %s)" % (surf_args(c), G.Q(c["u"]), G.Q(c["v"]), G.n(c["order"]),
+        return "(res_cmp closeVVVr (Surface_derivatives Qops %s %s %s %s) %s)" % (surf_args(c), G.Q(c["u"]), G.Q(c["v"]), G.n(c["order"]),
                                                                                   G.res(out, G.slll))
 
     def coq_show(self, c, out):
@@ -403,7 +406,8 @@ class SurfaceDers(Family):
             return "surface-shape: result is not (order+1) x (order+1)"
         for k in range(d + 1):
             for l in range(d + 1 - k):
-                if not vclose(got[k][l], exp[k][l]):
+                run = max([F(1)] + [abs(F(x)) for kk in range(k + 1) for ll in range(l + 1) for x in exp[kk][ll]])
+                if not vclose(got[k][l], exp[k][l], scale=run):
                     return "surface-derivative: %s SKL[%d][%d] at (%r,%r) = %s, exact %s (degrees %d,%d, order %d, %s)" % (
                         "rational" if c["rational"] else "non-rational", k, l, c["u"], c["v"], got[k][l], [float(x) for x in exp[k][l]],
                         c["pu"], c["pv"], d, "A3.8" if c["alg2"] else "A3.6")
